@@ -25,7 +25,7 @@ import (
 
 func TestMain(m *testing.M) {
 	harness.Property("C12",
-		"case = one operation {ProcessInbound of a parsed message carrying the Mid header, GetInboundAnswer of a proposal, SetDeferred, SetSent with a file pre-placed where the joined path resolves} x one identifier from a hostile grammar (.., ../x, ../../x, a/../../b, absolute, out/../.., empty, 1..4 KiB, non-ASCII, NUL, backslashes, trailing dots/slashes, random mixtures of such segments; a fifth of them wrapped as RFC 2047 Q/B encoded-words or percent-encoded; benign alphanumerics as control) x header-name spelling x extra hostile header x send-only; run by the mboxop helper (chroot'ed into the scratch tree) in a fresh tree base/s/d1/d2/mbox with decoy files and sibling directories on every level. Oracle: recursive snapshot (path, type, mode, size, mtime, inode, SHA-256, link target) of everything except mbox/ is identical before and after. Non-trivial = identifier with a separator, a dot-dot segment, an absolute or the empty form, or an encoded form of a hostile identifier; distinct by hash(op, identifier, header spelling, extra header).",
+		"case = one operation {ProcessInbound of a parsed message carrying the Mid header, GetInboundAnswer of a proposal, SetDeferred, SetSent with a file pre-placed where the joined path resolves} x one identifier from a hostile grammar (.., ../x, ../../x, a/../../b, absolute, out/../.., empty, 1..4 KiB, non-ASCII, NUL, backslashes, trailing dots/slashes, random mixtures of such segments; a fifth of them wrapped as RFC 2047 Q/B encoded-words or percent-encoded; benign alphanumerics as control) x header-name spelling x extra hostile header x send-only; run by the mboxop helper (chroot'ed into the scratch tree) in a fresh tree base/s/d1/d2/mbox with decoy files and sibling directories on every level. Oracle: recursive snapshot (path, type, mode, size, mtime, inode, SHA-256, link target) of everything except mbox/ is identical before and after. Non-trivial = identifier with a separator, a dot-dot segment, an absolute or the empty form, or an encoded form of a hostile identifier, or a handler that was pointed at the mailbox after serving a neighbouring one; distinct by hash(op, identifier, header spelling, extra header).",
 		"the helper's exit status and the operation's error value are not judged (SetSent ends the process when the rename fails)",
 		"identifiers reach ProcessInbound the way a remote's do: as the Mid field of message bytes parsed by fbb.Message.ReadFrom; bytes that do not parse are counted (helper:parse_err) and judged like any other case",
 	)
@@ -40,6 +40,9 @@ type Case struct {
 	Extra    string `json:"extra"`     // additional header line(s) of the received message ("" = none)
 	SendOnly bool   `json:"send_only"` // handler mode
 	Family   string `json:"family"`
+	// Repoint: one long-lived handler; it was created and prepared for the neighbouring mailbox mbox2 and then
+	// pointed at the mailbox under test through its exported MBoxPath field (and prepared again)
+	Repoint bool `json:"repoint,omitempty"`
 }
 
 const mboxRel = "s/d1/d2/mbox"
@@ -48,7 +51,7 @@ var past = time.Date(2001, 2, 3, 4, 5, 6, 0, time.UTC)
 
 // buildTree lays out base/{x.b2f,decoy.b2f,s/{...,d1/{...,d2/{...,in/,out/,sent/,mbox2/,mbox/{in,out,sent,archive}}},sib/}}.
 func buildTree(base string) error {
-	dirs := []string{"s", "s/sib", "s/d1", "s/d1/d2", "s/d1/d2/in", "s/d1/d2/out", "s/d1/d2/sent", "s/d1/d2/mbox2", "s/d1/d2/mbox2/in",
+	dirs := []string{"s", "s/sib", "s/d1", "s/d1/d2", "s/d1/d2/in", "s/d1/d2/out", "s/d1/d2/sent", "s/d1/d2/mbox2", "s/d1/d2/mbox2/in", "s/d1/d2/mbox2/out", "s/d1/d2/mbox2/sent", "s/d1/d2/mbox2/archive",
 		mboxRel, mboxRel + "/in", mboxRel + "/out", mboxRel + "/sent", mboxRel + "/archive", "etc", "tmp"}
 	for _, d := range dirs {
 		if err := os.MkdirAll(filepath.Join(base, d), 0o755); err != nil {
@@ -270,6 +273,11 @@ func run(c Case) (sig, msg string, o outcome) {
 	if chrootOK {
 		spec.Chroot, spec.Mbox = base, "/"+mboxRel
 	}
+	if c.Repoint {
+		// the handler served the neighbouring mailbox mbox2 (complete, so preparing it changes nothing) before
+		// it was pointed at the mailbox under test; mbox2 is outside the configured directory now
+		spec.FirstMbox = filepath.Join(filepath.Dir(spec.Mbox), "mbox2")
+	}
 	switch c.Op {
 	case "process_inbound":
 		key := c.MidKey
@@ -432,6 +440,13 @@ func genCase(t *rapid.T) Case {
 	c := Case{MidKey: "Mid"}
 	c.Op = rapid.SampledFrom([]string{"process_inbound", "process_inbound", "process_inbound", "get_inbound_answer", "set_deferred", "set_sent", "set_sent"}).Draw(t, "op")
 	c.MID, c.Family = genMID(t)
+	// a long harmless prefix in front of the hostile part (a check that looks at a prefix or a truncated copy)
+	if c.Family != "benign" && c.Family != "long" && len(c.MID) > 0 && c.MID[0] != '/' && rapid.IntRange(0, 5).Draw(t, "prefixed") == 0 {
+		n := rapid.SampledFrom([]int{15, 16, 31, 32, 63, 64, 65, 127, 128, 200, 255, 256, 1000}).Draw(t, "prefix_len")
+		c.MID = append(append(bytes.Repeat([]byte("A"), n), '/'), c.MID...)
+		c.Family += "+long-harmless-prefix"
+	}
+	c.Repoint = rapid.IntRange(0, 7).Draw(t, "repoint") == 0
 	// the same hostile identifiers in the encodings a "helpful" decoding step would undo before the name is
 	// used (the mailbox decodes RFC 2047 words in subjects and attachment names, URLs are percent-decoded)
 	if c.Family != "benign" && c.Family != "long" && rapid.IntRange(0, 4).Draw(t, "encoded") == 0 {
@@ -496,6 +511,10 @@ func account(c Case, o outcome) {
 	}
 	harness.Eval()
 	cls, nt := midClasses(c.MID)
+	if c.Repoint {
+		harness.Label("history:handler-repointed-from-a-neighbouring-mailbox")
+		cls, nt = append(cls, "repointed-handler"), true
+	}
 	if strings.HasSuffix(c.Family, "+encoded") {
 		// an encoded identifier is non-trivial when the identifier it encodes is (it was drawn from the hostile grammar)
 		cls, nt = append(cls, "encoded(rfc2047-word or percent)"), true
